@@ -81,6 +81,8 @@ def cases(tier, seed):
                         "path": path,
                         "k": int(rng.integers(1, 4)),
                         "seed": int(rng.integers(1 << 30)),
+                        # the training loops save right after test(), i.e. in inference mode
+                        "eval_mode_at_save": bool(rng.random() < 0.4),
                     }
                     if algo in zoo.HAS_SHARE_ENCODERS:
                         c["share_encoders"] = bool(h % 2 == 0)
@@ -145,6 +147,9 @@ def run_case(case):
             rec.extra["history_failed"] = f"{type(e).__name__}: {str(e)[:120]}"
             return rec.result()
 
+        if case.get("eval_mode_at_save"):
+            orig.set_training_mode(False)
+            rec.hit("saved_in_inference_mode")
         tmpdir = tempfile.mkdtemp(prefix="vf_c07_")
         path = os.path.join(tmpdir, "agent.pt")
         # ------------------------------------------------------------ save
